@@ -347,7 +347,7 @@ func run(c *harness.Ctx, i int) {
 					if e == nil {
 						break
 					}
-					if f, ok := e.(desync.NodeFile); ok {
+					if f, ok := e.(desync.NodeFile); ok && k%2 == 0 { // every other input: the consumer does not look at the content
 						got, cerr := io.Copy(io.Discard, io.LimitReader(f.Data, 1<<20))
 						if cerr != nil || (f.Size <= 1<<20 && uint64(got) != f.Size) {
 							return "error" // the content ended early: the consumer can tell
